@@ -424,6 +424,20 @@ def gen_cases(tier, rng, w):
             c["changed"] = ch
             cs.append(c)
     streams["object history: export twice / re-sign / change public members, against a fresh object (credentials and responses)"] = cs
+    # ---- 7. process history: the key files a configuration names are rewritten (key rotation) between creations in ONE interpreter
+    cs = []
+    fixed = [(rep_plain[0], "r2048", 1), (rep_plain[0], "r2048", 3), (rep_plain[-1], "r4096", 2), (rep_plain[0], "p256", 2),
+             (rep_plain[-1], "p384", 4), (rep_plain[0], "p521", 3), (rep_ele[0], "p256", 4)]
+    if thorough:
+        fixed += [(rng.choice(rep_plain), kt, n) for kt in KTYPES for n in (1, 2, 3, 4)] + [(rng.choice(rep_ele), kt, 4) for kt in KTYPES]
+    for f, kt, n in fixed:
+        rid = n - 1
+        a = [f"{kt}_{i}" for i in range(n)]
+        b = [f"{kt}_{i}" for i in (1, 2, 3, 4)][:n]
+        cs.append({"op": "rotation", "family": f["family"], "revision": f["revision"], "rot_id": rid, "uuid": uuid16(), "socu": val32(),
+                   "vu": val32(), "beacon": val32(),
+                   "sets": [{"keys": a, "rotk": a[rid], "dck": f"{kt}_4"}, {"keys": b, "rotk": b[rid], "dck": f"{kt}_0"}]})
+    streams["process history: RoT / DCK / signing key files rewritten under the same paths between creations in one interpreter"] = cs
     return streams
 
 
@@ -728,6 +742,58 @@ def oracle_dcv2(case, r, w):
     return out
 
 
+def info_of_pem(text):
+    """public numbers of a key file, read here with `cryptography` (not through SPSDK)"""
+    from cryptography.hazmat.primitives import serialization as ser
+    from cryptography.hazmat.primitives.asymmetric import rsa as _rsa
+    try:
+        k = ser.load_pem_public_key(text.encode())
+        nums = k.public_numbers()
+    except Exception as ex:  # noqa
+        raise HarnessError(f"cannot read a key file snapshot: {ex!r}") from ex
+    if isinstance(k, _rsa.RSAPublicKey):
+        return {"k": "rsa", "bits": nums.n.bit_length(), "n": nums.n, "e": nums.e}
+    return {"k": "ecc", "bits": k.curve.key_size, "x": nums.x, "y": nums.y}
+
+
+class Overlay:
+    """a World whose key pool is extended by the keys found in file snapshots"""
+    def __init__(self, w, extra):
+        self.__dict__.update(w.__dict__)
+        self.pool = dict(w.pool, **extra)
+        self._w = w
+
+    def facts(self, case):
+        return self._w.facts(case)
+
+
+def oracle_rotation(case, r, w):
+    """Every creation must describe the keys that are in the files AT THAT MOMENT: RoT table entries / RoT hash are the
+    digests of the current key files (hashlib over the numbers read from the file snapshots), the RoT key and the DCK inside
+    the credential are the current ones, and the signature verifies under the current RoT key."""
+    out = []
+    history = []
+    for i, st in enumerate(r["rotation"]):
+        history.append(f"{i}: {st['op']}")
+        extra, names = {}, []
+        n = len(case["sets"][0]["keys"])
+        for j in range(n):
+            info = info_of_pem(st["files"][f"rot{j}.pub"])
+            name = ("r%d" if info["k"] == "rsa" else "p%d") % info["bits"] + f"_file{j}s{i}"
+            extra[name] = info
+            names.append(name)
+        dinfo = info_of_pem(st["files"]["dck.pub"])
+        dname = ("r%d" if dinfo["k"] == "rsa" else "p%d") % dinfo["bits"] + f"_filedcks{i}"
+        extra[dname] = dinfo
+        c2 = {"op": "dc", "family": case["family"], "revision": case["revision"], "keys": names, "rot_id": case["rot_id"],
+              "rotk": names[case["rot_id"]], "dck": dname, "uuid": case["uuid"], "socu": case["socu"], "vu": case["vu"],
+              "beacon": case["beacon"]}
+        for sig, msg in oracle_dc(c2, st["out"], Overlay(w, extra)):
+            out.append(("history:stale-key-files:" + sig.split(":", 2)[2] + f"@creation{i}",
+                        f"creation {i} does not describe the keys currently in the files: {msg}; history: {' | '.join(history)}"))
+    return out
+
+
 def oracle_history(case, r, w):
     """A second export of the same object is an export: identical where the output is deterministic, otherwise identical
     outside the signature and still verifying; after a change through public members it must equal a fresh object's export."""
@@ -995,6 +1061,8 @@ def run(tier):
                 hits += oracle_dar(c, r, w)
             if c["op"] == "history":
                 hits += oracle_history(c, r, w)
+            if c["op"] == "rotation":
+                hits += oracle_rotation(c, r, w)
         except Exception as ex:  # noqa  (HarnessError or a bug of the oracle itself: not a statement about SPSDK)
             oracle_failures.append(f"{type(ex).__name__}: {ex} on case {str({k: v for k, v in c.items() if k not in ('requests',)})[:200]}")
             hits = []
@@ -1140,7 +1208,8 @@ def run(tier):
                 v = list(r.values())[0]
                 if not (isinstance(v, dict) and "err" in v):
                     okc += 1
-                    distinct.add(v.get("e1", "")[:200] if c["op"] == "history" else str(v)[:300])
+                    distinct.add(v.get("e1", "")[:200] if c["op"] == "history" else str(v)[:300] if c["op"] != "rotation"
+                                 else str([st["out"].get("export", "")[:120] for st in v]))
         samples = [{k: v for k, v in flat[i].items() if not k.startswith("_") and k != "requests"} for i in idx[:3]]
         for s in samples:
             for k in ("data", "dc", "dac"):
